@@ -336,6 +336,26 @@ def compile(pattern, flags=0):  # noqa: A001
     return _Compiled(pattern, flags)
 
 
+_ORIG = {}  # (module name, global name) -> the real compiled pattern
+
+
+def install(mod, rexmod=None):
+    """Point a library module at this matcher: its name `re`, and every *precompiled* pattern it keeps as a module
+    global (compiled by the real `re` at import time, before any shim could be in place)."""
+    mod.re = rexmod or module()
+    for k, v in list(vars(mod).items()):
+        if isinstance(v, _re.Pattern):
+            _ORIG[(mod.__name__, k)] = v
+            setattr(mod, k, _Compiled(v.pattern, v.flags & ~_re.UNICODE))
+
+
+def uninstall(mod):
+    mod.re = _re
+    for (mn, k), v in list(_ORIG.items()):
+        if mn == mod.__name__:
+            setattr(mod, k, v)
+
+
 def module() -> types.ModuleType:
     """A module-like object to install as the name `re` in a library module's namespace."""
     m = types.ModuleType("re")
